@@ -267,8 +267,10 @@ class BuiltinMixin:
         if x.pt == "bool":
             return self.unbox(x, "int")
         if x.pt == "str":
-            # int("<digit>") only for single-character digit strings is interpreted; otherwise an assumed external
-            return self.call_named("builtins.int", [x], {}, st, fr, node)
+            # int(s) on a str: z3's str.to_int (non-negative decimal numerals); anything else raises ValueError
+            n = z3.StrToInt(x.t)
+            self.may_raise(st, fr, "ValueError", n >= 0, node, "int-of-str")
+            return SV(n, "int")
         if x.pt == "any":
             return self.call_named("builtins.int", [x], {}, st, fr, node)
         raise Untranslatable("int()")
@@ -504,7 +506,7 @@ class BuiltinMixin:
     # ------------------------------------------------------------------ spec-only functions (contract language)
     SPEC_ONLY = {"card", "implies", "iff", "forall", "exists", "subset", "set_eq", "old", "is_class", "keys_of",
                  "ty_is", "same_class", "unchanged", "fresh_obj", "no_effects", "effects", "attr", "sel", "tuple2", "sval", "ival",
-                 "local", "tail", "type_arg", "type_args", "sub_accepts", "attr_set", "accepts", "matches", "is_json", "as_set_of", "distinct", "cls_name", "clsattr", "written_text", "opened_path", "ext", "box_bool", "tl_get", "raw_tq_ok", "is_blank", "attr_of", "eq_str", "mro_of", "as_dict", "as_list", "as_set", "seq_len", "dict_len", "truthy", "dict_get", "pyeval_str", "at", "is_none"}
+                 "local", "word_only", "digit_start", "box_str", "tail", "type_arg", "type_args", "sub_accepts", "attr_set", "accepts", "matches", "is_json", "as_set_of", "distinct", "cls_name", "clsattr", "written_text", "opened_path", "ext", "box_bool", "tl_get", "raw_tq_ok", "is_blank", "attr_of", "eq_str", "mro_of", "as_dict", "as_list", "as_set", "seq_len", "dict_len", "truthy", "dict_get", "pyeval_str", "at", "is_none"}
     SPEC_CONSTS = {}
 
     def bi_card(self, node, st, fr):
@@ -896,3 +898,40 @@ class BuiltinMixin:
     def bi_type_args(self, node, st, fr):
         t = self.ev(node.args[0], st, fr)
         return SV(self.box(self.class_attr(SV(self.box(t), "class"), "__args__", st, fr, node)), "any")
+
+    def bi_word_only(self, node, st, fr):
+        """word_only(s): every character of s is a word character (\\w).  Uninterpreted, with the closure facts that are true of it."""
+        v = self.voc
+        W = v.fn("word_only", z3.StringSort(), z3.BoolSort())
+        if not getattr(self, "_word_done", False):
+            self._word_done = True
+            a, b = z3.String("wa"), z3.String("wb")
+            i, n = z3.Int("wi"), z3.Int("wn")
+            self.global_facts += [
+                z3.ForAll([a, b], W(z3.Concat(a, b)) == z3.And(W(a), W(b)), patterns=[W(z3.Concat(a, b))]),
+                z3.ForAll([a, i, n], z3.Implies(W(a), W(z3.SubString(a, i, n))), patterns=[W(z3.SubString(a, i, n))]),
+                W(z3.StringVal("")), W(z3.StringVal("_")),
+            ] + [W(z3.StringVal(w)) for w in ("one", "two", "three", "four", "five", "six", "seven", "eight", "nine")]
+        x = self.unbox(self.ev(node.args[0], st, fr), "str")
+
+        def wo(t):
+            # structural evaluation: distribute over concatenation and conditionals, decide literals concretely
+            import re as _re
+            if z3.is_string_value(t):
+                return z3.BoolVal(_re.fullmatch(r"\w*", t.as_string()) is not None)
+            if z3.is_app(t) and t.decl().kind() == z3.Z3_OP_SEQ_CONCAT:
+                return z3.And([wo(c) for c in t.children()])
+            if z3.is_app(t) and t.decl().kind() == z3.Z3_OP_ITE:
+                c, a, b = t.children()
+                return z3.If(c, wo(a), wo(b))
+            return W(t)
+        return SV(wo(x.t), "bool")
+
+    def bi_digit_start(self, node, st, fr):
+        """digit_start(s): s is non-empty and its first character is one of 0..9"""
+        x = self.unbox(self.ev(node.args[0], st, fr), "str").t
+        c = z3.SubString(x, 0, 1)
+        return SV(z3.And(z3.Length(x) > 0, z3.StringVal("0") <= c, c <= z3.StringVal("9")), "bool")
+
+    def bi_box_str(self, node, st, fr):
+        return SV(self.voc.S2V(self.unbox(self.ev(node.args[0], st, fr), "str").t), "any")
